@@ -1,5 +1,8 @@
 import RefurbVerif.Wire.Basic
 import RefurbVerif.Model.Rules
+import RefurbVerif.Model.CheckAst
+import RefurbVerif.Wire.Types
+import RefurbVerif.Wire.Equiv
 open Lean
 
 namespace RefurbVerif.Wire
@@ -185,8 +188,189 @@ def flowJ (names : List String) : Flow → Json
   | .continued _ => Json.mkObj [("r", "continued")]
   | .raised => Json.mkObj [("r", "raised")]
 
+
+/-! ### the check matchers of Model/CheckAst.lean over trees serialised by harness/astjson.py -/
+
+namespace ChecksW
+open RefurbVerif.CheckAst
+
+/-- `TypeInfo.mro` of `builtins.tuple` (what `extract_typeinfo` answers for every `TupleType`) -/
+def tupleMro : List String :=
+  ["builtins.tuple", "typing.Sequence", "typing.Collection", "typing.Reversible", "typing.Iterable", "typing.Container", "builtins.object"]
+
+/-- the Python classes among the values of SIMPLE_TYPES -/
+def simpleNames : List String :=
+  (Generated.simpleTypes.filterMap (fun e => match e.2 with | .pyType n => some n | _ => none)).eraseDups
+
+/-- the verdicts of refurb's type helpers (Model/Types.lean) on a serialised `get_mypy_type` result -/
+def tyAnnOf (j : Json) : TyAnn :=
+  let tbl := Generated.simpleTypes
+  let v := TypesW.toVal j
+  let Γ : Types.Ctx := {
+    classes := [{ fullname := str j "name", mro := strs j "mro", names := [] },
+                { fullname := "builtins.tuple", mro := tupleMro, names := [] }],
+    modules := [], builtins := [("tuple", .typeInfo "builtins.tuple")] }
+  { isNone := v.isNone,
+    same := (simpleNames.find? (fun n => Types.isSameType tbl v [.pyType n])).getD "",
+    named := (match v with
+      | some (.ty t) => (match t.expandAlias with | .inst c _ => c | _ => "")
+      | _ => ""),
+    pyType := (match Types.mypyTypeToPythonType tbl v with | some (.pyType n) => n | _ => ""),
+    sized := Types.isSizedType tbl Γ v,
+    mapping := Types.isMappingType tbl Γ v }
+
+def annOf (j : Json) : Ann :=
+  { line := int j "line", col := int j "col", eline := int j "end_line", ecol := int j "end_col",
+    ty := tyAnnOf (obj j "ty"), str := optStr j "str", sc := str j "sc" }
+
+def argKind (s : String) : ArgKind :=
+  match s with
+  | "ARG_POS" => .pos | "ARG_OPT" => .opt | "ARG_STAR" => .star | "ARG_NAMED" => .named | "ARG_STAR2" => .star2 | _ => .namedOpt
+
+def nth (j : Json) (i : Nat) : Json :=
+  match j with
+  | .arr a => a.toList.getD i Json.null
+  | _ => Json.null
+
+partial def toExpr (j : Json) : Expr :=
+  match j with
+  | .null => .absent
+  | _ =>
+    let a := annOf j
+    let sub (k : String) : Expr := toExpr (obj j k)
+    let subs (k : String) : List Expr := (arr j k).map toExpr
+    match str j "kind" with
+    | "NameExpr" => .name a (str j "name") (str j "fullname")
+    | "MemberExpr" => .member a (sub "expr") (str j "name") (str j "fullname")
+    | "CallExpr" =>
+      let args := arr j "args"
+      .call a (sub "callee") (args.map (fun x => toExpr (nth x 0))) (args.map (fun x => argKind ((nth x 1).getStr?.toOption.getD "")))
+        (args.map (fun x => (nth x 2).getStr?.toOption))
+    | "OpExpr" => .op a (str j "op") (sub "left") (sub "right")
+    | "ComparisonExpr" => .compare a (strs j "ops") (subs "operands")
+    | "UnaryExpr" => .unary a (str j "op") (sub "expr")
+    | "ConditionalExpr" => .cond a (sub "if_expr") (sub "cond") (sub "else_expr")
+    | "IndexExpr" => .index a (sub "base") (sub "index")
+    | "SliceExpr" => .slice a (sub "begin") (sub "end") (sub "stride")
+    | "IntExpr" => .int a ((str j "value").toInt?.getD 0)
+    | "StrExpr" => .str a (str j "value")
+    | "BytesExpr" => .bytes a (str j "value")
+    | "FloatExpr" => .float a (str j "value")
+    | "ListExpr" => .list a (subs "items")
+    | "TupleExpr" => .tuple a (subs "items")
+    | "SetExpr" => .set a (subs "items")
+    | "DictExpr" => .dict a ((arr j "items").map (fun x => toExpr (nth x 0))) ((arr j "items").map (fun x => toExpr (nth x 1)))
+    | "LambdaExpr" => .lambda a (sub "body")
+    | "GeneratorExpr" =>
+      .comp a "GeneratorExpr" [sub "left"] (subs "indices") (subs "sequences") ((arr j "condlists").flatMap (fun cl => match cl with | .arr x => x.toList.map toExpr | _ => []))
+    | "DictionaryComprehension" =>
+      .comp a "DictionaryComprehension" [sub "key", sub "value"] (subs "indices") (subs "sequences")
+        ((arr j "condlists").flatMap (fun cl => match cl with | .arr x => x.toList.map toExpr | _ => []))
+    | "ListComprehension" => .other a "ListComprehension" [sub "generator"]
+    | "SetComprehension" => .other a "SetComprehension" [sub "generator"]
+    | "StarExpr" => .other a "StarExpr" [sub "expr"]
+    | "AwaitExpr" => .other a "AwaitExpr" [sub "expr"]
+    | "YieldExpr" => .other a "YieldExpr" [sub "expr"]
+    | "YieldFromExpr" => .other a "YieldFromExpr" [sub "expr"]
+    | "AssignmentExpr" => .other a "AssignmentExpr" [sub "target", sub "value"]
+    | k => .other a k []
+
+/-! the `is_equivalent` oracle: Model/Equiv.lean on the same tree -/
+
+def kindNat : ArgKind → Nat
+  | .pos => 0 | .opt => 1 | .star => 2 | .named => 3 | .star2 => 4 | .namedOpt => 5
+
+mutual
+partial def toEquiv : Expr → Equiv.Expr
+  | .absent => .other [] "None".toList []
+  | .name _ n fn => .name n.toList (some fn.toList)
+  | .member _ e n fn => .member (toEquiv e) n.toList (some fn.toList)
+  | .index _ b i => .index (toEquiv b) (toEquiv i)
+  | .call _ c args kinds names => .call (toEquiv c) (toEquivArgs args kinds names)
+  | .list _ items => .seq .list (toEquivL items)
+  | .tuple _ items => .seq .tuple (toEquivL items)
+  | .set _ items => .seq .set (toEquivL items)
+  | .dict _ ks vs => .dict (toEquivItems ks vs)
+  | .unary _ o e => .unary o.toList (toEquiv e)
+  | .op _ o l r => .op o.toList (toEquiv l) (toEquiv r)
+  | .compare a ops operands =>
+    (match operands with
+     | f :: rest => .cmp (toEquiv f) (toEquivRest ops rest)
+     | [] => .other "ComparisonExpr".toList a.sc.toList [])
+  | .slice _ b e s => .slice (toEquivO b) (toEquivO e) (toEquivO s)
+  | .int _ v => .lit .int (toString v).toList
+  | .str _ v => .lit .str v.toList
+  | .bytes _ v => .lit .bytes v.toList
+  | .float _ r => .lit .float r.toList
+  | .other _ "StarExpr" [e] => .star (toEquiv e)
+  | e => .other [] e.ann.sc.toList []
+partial def toEquivL : List Expr → Equiv.Exprs
+  | [] => .nil
+  | x :: t => .cons (toEquiv x) (toEquivL t)
+partial def toEquivArgs : List Expr → List ArgKind → List (Option String) → Equiv.Args
+  | x :: t, k :: ks, n :: ns => .cons (toEquiv x) (kindNat k) (n.map String.toList) (toEquivArgs t ks ns)
+  | _, _, _ => .nil
+partial def toEquivItems : List Expr → List Expr → Equiv.Items
+  | k :: ks, v :: vs => .cons (toEquivO k) (toEquiv v) (toEquivItems ks vs)
+  | _, _ => .nil
+partial def toEquivRest : List String → List Expr → Equiv.Rest
+  | o :: os, e :: es => .cons o.toList (toEquiv e) (toEquivRest os es)
+  | _, _ => .nil
+partial def toEquivO : Expr → Equiv.OExpr
+  | .absent => .none
+  | e => .some (toEquiv e)
+end
+
+def oracle (major minor : Nat) : Oracle :=
+  { eqv := fun a b => Equiv.isEquiv Generated.equivCfg (toEquiv a) (toEquiv b),
+    py39 := major > 3 || (major == 3 && minor >= 9),
+    py310 := major > 3 || (major == 3 && minor >= 10) }
+
+/-- Python-style quoting of a string literal (only what the comparison in the harness needs) -/
+def quote (s : List Char) : String :=
+  "\"" ++ String.join (s.map (fun c =>
+    if c == '"' then "\\\"" else if c == '\\' then "\\\\" else if c == '\n' then "\\n" else if c == '\r' then "\\r"
+    else if c == '\t' then "\\t" else String.singleton c)) ++ "\""
+
+/-- the operand naming used for rendering: refurb's own text of the operand, parenthesised -/
+def srcName (e : Expr) : String :=
+  match e.ann.str with
+  | some s => "(" ++ s ++ ")"
+  | none => s!"_opaque_{e.ann.line}_{e.ann.col}"
+
+/-- the operand naming used to compare the reading with the SOURCE: a placeholder carrying the operand's span (the harness
+    puts the source text of that span in its place) -/
+def posName (e : Expr) : String := s!"__op_{e.ann.line}_{e.ann.col}_{e.ann.eline}_{e.ann.ecol}__"
+
+def kindOf (r : Rule) : String :=
+  if rules.any (fun x => x.code == r.code && x.label == r.label) then "proved"
+  else if guardedRules.any (fun x => x.code == r.code && x.label == r.label) then "guarded"
+  else if refutedRules.any (fun x => x.code == r.code && x.label == r.label) then "refuted" else "unknown"
+
+def hitJ (h : Hit) : Json :=
+  let base : List (String × Json) := [("code", (h.code : Json)), ("line", (h.line : Json)), ("col", (h.col : Json)), ("msg", (h.msg : Json)),
+    ("node", Json.arr #[(h.nline : Json), (h.ncol : Json), (h.neline : Json), (h.necol : Json)])]
+  match h.verdict with
+  | .row r σ =>
+    let more : List (String × Json) := [("verdict", Json.str "row"), ("rule", Json.str s!"FURB{r.code}:{r.label}"), ("kind", Json.str (kindOf r)),
+      ("old_src", Json.str (render (instantiate (opSubst posName σ) r.old))), ("new_src", Json.str (render (instantiate (opSubst srcName σ) r.new))),
+      ("schematic_new", Json.str (render r.new)), ("cond_pos", Json.bool r.condPos),
+      ("classes", Json.arr (σ.map (fun p => Json.arr #[Json.str p.1, Json.str p.2.ann.ty.same])).toArray)]
+    Json.mkObj (base ++ more)
+  | .outside why =>
+    let more : List (String × Json) := [("verdict", Json.str "outside"), ("why", Json.str why)]
+    Json.mkObj (base ++ more)
+
+/-- `match_checks`: {py: [major, minor], roots: [{role, expr}]} ↦ every diagnostic the modelled checks report below the roots -/
+def matchChecks (j : Json) : Json :=
+  let py := arr j "py"
+  let o := oracle ((py.getD 0 Json.null).getNat?.toOption.getD 3) ((py.getD 1 Json.null).getNat?.toOption.getD 12)
+  Json.arr ((arr j "roots").flatMap (fun r => (walkRoot o (str r "role") (toExpr (obj r "expr"))).map hitJ)).toArray
+
+end ChecksW
+
 /-- verbs: py_rules (the rule table with Python renderings), py_eval (a rule's old/new under an environment),
-    py_srules (the statement rules), py_exec (a statement rule's old/new block run from an environment; `names` = the
+    py_srules (the statement rules), match_checks (the check matchers over serialised trees), py_exec (a statement rule's old/new block run from an environment; `names` = the
     bindings to report) -/
 def handleChecks (verb : String) (j : Json) : Option Json :=
   match verb with
@@ -199,6 +383,7 @@ def handleChecks (verb : String) (j : Json) : Option Json :=
       some (match eval (envOfJ (obj j "env")) e with
         | .ok v => Json.mkObj [("r", "ok"), ("v", valJ v), ("truthy", truthy v)]
         | .error _ => Json.mkObj [("r", "raised")])
+  | "match_checks" => some (ChecksW.matchChecks j)
   | "py_srules" => some (Json.arr (allSRules.map (fun p => sruleJ p.1 p.2)).toArray)
   | "py_exec" =>
     match allSRules[nat j "srule"]? with
